@@ -71,7 +71,7 @@ type releaseEv struct {
 func genC03CCase() *rapid.Generator[C03CCase] {
 	return rapid.Custom(func(t *rapid.T) C03CCase {
 		c := C03CCase{Backend: rapid.SampledFrom([]string{"memory", "sqlite"}).Draw(t, "backend")}
-		c.Msgs = rapid.SampledFrom([]int{1, 2, 3, 5, 12}).Draw(t, "msgs")
+		c.Msgs = rapid.SampledFrom([]int{1, 2, 3, 5, 12, 40, 120}).Draw(t, "msgs")
 		c.TTLMs = rapid.SampledFrom([]int{10, 50, 1000}).Draw(t, "ttl")
 		nph := rapid.IntRange(2, 5).Draw(t, "phases")
 		for i := 0; i < nph; i++ {
@@ -88,7 +88,7 @@ func genC03CCase() *rapid.Generator[C03CCase] {
 						acts = append(acts, CWAct{K: rapid.SampledFrom([]string{"cancel", "requeue", "requeue"}).Draw(t, "ok"), N: rapid.IntRange(0, c.Msgs-1).Draw(t, "on")})
 					} else {
 						k := rapid.SampledFrom([]string{"deq", "deq", "deq", "ack", "nack", "nack", "ext", "forget"}).Draw(t, "k")
-						acts = append(acts, CWAct{K: k, N: rapid.SampledFrom([]int{1, 1, 2, 5}).Draw(t, "n")})
+						acts = append(acts, CWAct{K: k, N: rapid.SampledFrom([]int{1, 1, 2, 5, 9, 16, 50}).Draw(t, "n")})
 					}
 				}
 				w.Phases = append(w.Phases, acts)
